@@ -144,6 +144,10 @@ func runRecycle(k int, e recExp, t *Trace, seg int) int {
 		}
 		if ev == "aborted" && g == atomic.LoadInt64(&victimG) && atomic.CompareAndSwapInt32(&fired, 0, 1) {
 			inWin <- struct{}{}
+			if RaceBuild && e.hold == "relock" { // (the other experiments of this family take seconds: a trip round the allocator's ring)
+				holdVictim(resume)
+				return
+			}
 			select {
 			case <-resume:
 			case <-time.After(30 * time.Second):
